@@ -1013,6 +1013,7 @@ fn check_created(src: &M, sel: &BTreeSet<usize>, nm: &M) -> Option<String> {
     if nm.f.len() != sel.len() {
         return Some(format!("{} faces selected but the new mesh has {}", sel.len(), nm.f.len()));
     }
+    // winding is the cyclic order of the three corners: the triple is compared up to rotation
     let bits = |t: [[f64; 3]; 3]| -> [[u64; 3]; 3] {
         let mut o = [[0u64; 3]; 3];
         for a in 0..3 {
@@ -1020,7 +1021,8 @@ fn check_created(src: &M, sel: &BTreeSet<usize>, nm: &M) -> Option<String> {
                 o[a][b] = t[a][b].to_bits();
             }
         }
-        o
+        let k = (0..3).min_by_key(|&k| o[k]).unwrap();
+        [o[k], o[(k + 1) % 3], o[(k + 2) % 3]]
     };
     let mut want: BTreeMap<[[u64; 3]; 3], i64> = BTreeMap::new();
     for &i in sel {
@@ -1034,7 +1036,7 @@ fn check_created(src: &M, sel: &BTreeSet<usize>, nm: &M) -> Option<String> {
         *got.entry(bits(nm.tri(i))).or_insert(0) += 1;
     }
     if want != got {
-        return Some("the triangles of the new mesh (coordinates in stored order) are not the selected triangles".into());
+        return Some("the triangles of the new mesh (corner coordinates, up to rotation of the triple) are not the selected triangles".into());
     }
     let used: BTreeSet<u32> = nm.f.iter().flat_map(|f| f.iter().copied()).collect();
     if used.len() != nm.v.len() {
